@@ -73,17 +73,29 @@ pub fn build(pats: &[Vec<u8>], kind: Kind, v: Variant) -> Option<Searcher> {
 }
 
 /// Which implementation did the builder actually pick? (Read from Debug.)
-pub fn implementation(s: &Searcher) -> String {
+/// The algorithm a packed searcher runs. Read from its Debug output where that
+/// names it; otherwise (type names are an implementation detail) taken from
+/// the variant that was forced through `packed::Config`.
+pub fn implementation(s: &Searcher, v: Variant) -> String {
     let d = format!("{:?}", s);
-    let imp = if d.contains("search_kind: RabinKarp") {
-        "RabinKarp".to_string()
-    } else if let Some(i) = d.find("search_kind: Teddy(Searcher { imp: ") {
+    if d.contains("search_kind: RabinKarp") {
+        return "RabinKarp".to_string();
+    }
+    if let Some(i) = d.find("search_kind: Teddy(Searcher { imp: ") {
         let rest = &d[i + "search_kind: Teddy(Searcher { imp: ".len()..];
-        rest.split(|c: char| !c.is_alphanumeric()).next().unwrap_or("?").to_string()
-    } else {
-        "?".to_string()
-    };
-    imp
+        let name = rest.split(|c: char| !c.is_alphanumeric()).next().unwrap_or("");
+        if ["SlimSSSE3", "SlimAVX2", "FatAVX2"].contains(&name) {
+            return name.to_string();
+        }
+    }
+    match v {
+        Variant::RabinKarp => "RabinKarp",
+        Variant::Slim128 => "SlimSSSE3",
+        Variant::Slim256 => "SlimAVX2",
+        Variant::Fat256 => "FatAVX2",
+        Variant::Default => "Default",
+    }
+    .to_string()
 }
 
 fn case_json(
@@ -263,7 +275,7 @@ pub fn for_each_case(
                         continue;
                     }
                 };
-                let imp = implementation(&s);
+                let imp = implementation(&s, v);
                 for hay in &hays {
                     for sp in gen::vec_spans(&mut rng, hay.len()) {
                         f(rep, &pats, kind, v, &s, &imp, mask_len, hay, sp);
@@ -305,7 +317,7 @@ fn near_miss_sweep(ctx: &Ctx, rep: &mut Report) {
                         Ok(Some(s)) => s,
                         _ => continue,
                     };
-                    let imp = implementation(&s);
+                    let imp = implementation(&s, v);
                     let ml = pats.iter().map(|x| x.len()).min().unwrap_or(0).min(4);
                     for &i in &positions {
                         let mut near = p.clone();
@@ -368,7 +380,7 @@ fn giant_patterns(ctx: &Ctx, rep: &mut Report) {
                         continue;
                     }
                 };
-                let imp = implementation(&s);
+                let imp = implementation(&s, v);
                 let l = hay.len();
                 check_one(rep, &pats, kind, v, &s, &imp, 2, &hay, (0, l));
                 check_one(rep, &pats, kind, v, &s, &imp, 2, &hay, (7, l - 3));
@@ -420,7 +432,7 @@ fn hash_collisions(ctx: &Ctx, rep: &mut Report) {
                     Ok(Some(s)) => s,
                     _ => continue,
                 };
-                let imp = implementation(&s);
+                let imp = implementation(&s, v);
                 let l = hay.len();
                 let ml = pats.iter().map(|p| p.len()).min().unwrap_or(0).min(4);
                 check_one(rep, pats, kind, v, &s, &imp, ml, hay, (0, l));
@@ -462,7 +474,7 @@ pub fn parse_case(case: &J) -> Result<PackedCase, String> {
 pub fn replay(case: &J, rep: &mut Report) -> Result<(), String> {
     let c = parse_case(case)?;
     let s = build(&c.pats, c.kind, c.variant).ok_or("searcher could not be built")?;
-    let imp = implementation(&s);
+    let imp = implementation(&s, c.variant);
     let ml = c.pats.iter().map(|p| p.len()).min().unwrap_or(0).min(4);
     check_one(rep, &c.pats, c.kind, c.variant, &s, &imp, ml, &c.hay, c.span);
     Ok(())
